@@ -250,9 +250,17 @@ def descs_connectivity(a, fbs=(False,), conns=('weak', 'strong')):
                 yield {'f': f, 'matrix': md, 'connection': conn, 'force_bipartite': fb}
 
 
-def descs_cycles(a, rng, roots='all', directeds=(None, True, False), with_break=True):
+def descs_cycles(a, rng, roots='all', directeds=None, with_break=True):
     md = mat_desc(a)
     n = a.shape[0]
+    if directeds is None:
+        # the flag that contradicts the matrix is an error (asymmetric, False) or a reinterpretation
+        # (symmetric, True: every edge is a 2-cycle): sampled
+        symmetric = (a - a.T).nnz == 0
+        if symmetric:
+            directeds = (None, False, True) if rng.random() < 0.3 else (None, False)
+        else:
+            directeds = (None, True, False) if rng.random() < 0.15 else (None, True)
     yield {'f': 'is_bipartite', 'matrix': md}
     for d in directeds:
         yield {'f': 'is_acyclic', 'matrix': md, 'directed': d}
